@@ -109,3 +109,85 @@ def main(run):
                         run.nontriv(("c11", k, kind, rep, m, run.shard[0]))
                 if len(run.samples) < 3 and k in (3, 5) and kind == "ramp" and rep == 0:
                     run.sample({"k": k, "values": vals, "final_mean": tr.mean, "final_var": tr.var})
+    # ---- window sizes given as NumPy integers of every width, streams LONGER than the width's range (update counters
+    # combined with k must not inherit k's dtype), one long stream on a plain int k, bound method taken before the first update
+    def window_stats(vals, m, k):
+        win = vals[max(0, m - k):m]
+        mean = math.fsum(win) / len(win)
+        var = math.fsum((x - mean) ** 2 for x in win) / len(win)
+        return mean, var
+
+    specs = [(np.int8(5), 300), (np.int8(100), 450), (np.uint8(3), 700), (np.uint8(200), 900), (np.int16(7), 33500),
+             (np.uint16(4), 66500 if run.tier == "thorough" else 1200), (np.int32(6), 500), (np.int64(9), 500), (np.intp(2), 300),
+             (7, 70000 if run.tier == "quick" else 300000), (1, 5000), (2, 5000)]
+    for si, (k, n) in enumerate(specs):
+        if si % run.shard[1] != run.shard[0] % len(specs) and run.shard[1] > 1:
+            continue
+        kname = type(k).__name__
+        try:
+            tr = SlidingWindowTracker(k)
+        except Exception as ex:
+            run.ok(kind="numpy-k")
+            run.violation("construct", f"SlidingWindowTracker({kname}({int(k)})) raised {type(ex).__name__}: {ex}", {"k": int(k), "k_type": kname})
+            continue
+        upd = tr.update if si % 2 == 0 else None
+        vals = []
+        checks = {n}
+        for j in range(1, 20):
+            checks.update((2 ** j - 1, 2 ** j, 2 ** j + 1))
+        ki = int(k)
+        trend = si % 3 == 0
+        for m in range(1, n + 1):
+            v = rnd.uniform(-3, 3) + (m * 1e-3 if trend else 0.0)
+            vals.append(v)
+            try:
+                if upd is not None:
+                    upd(v)
+                else:
+                    tr.update(v)
+            except Exception as ex:
+                run.ok(kind="numpy-k")
+                run.violation("update-raises", f"k={kname}({ki}): update #{m} raised {type(ex).__name__}: {ex}", {"k": ki, "k_type": kname, "updates": m})
+                break
+            if m in checks or m % ki == 1 and rnd.random() < 0.02 or rnd.random() < 0.003:
+                mean, var = window_stats(vals, m, ki)
+                scale = max(1.0, abs(mean))
+                run.ok(3, kind="numpy-k" if not isinstance(k, int) else "long-stream")
+                got = (float(tr.mean), float(tr.var), float(tr.std))
+                if not (abs(got[0] - mean) <= 1e-11 * scale and abs(got[1] - var) <= 1e-10 * scale * scale
+                        and abs(got[2] - math.sqrt(var)) <= 1e-6 * scale):
+                    run.violation("window-mean" if abs(got[0] - mean) > 1e-11 * scale else "window-var",
+                                  f"k={kname}({ki}) after {m} updates on one tracker: mean/var/std {got!r}, last min(n,k) values give "
+                                  f"{(mean, var, math.sqrt(var))!r}", {"k": ki, "k_type": kname, "updates": m, "last_values": vals[-ki - 2:]})
+                    break
+        run.nontriv(("c11-k-type", kname, ki))
+    # ---- SlidingWindowTracker as the base of a MultiValueTracker: keys that appear late get their OWN empty window
+    from ixai.utils.tracker import MultiValueTracker
+    for rep in range(30 if run.tier == "quick" else 120):
+        k = rnd.choice([1, 2, 3, 4, 6])
+        mt = MultiValueTracker(SlidingWindowTracker(k))
+        keys = ["a", "b", "c", "d"]
+        per = {}
+        hist = []
+        for t in range(rnd.randrange(3, 5 * k + 6)):
+            avail = keys[:min(4, 1 + t // rnd.choice([1, 2, 3]))]
+            upd_ = {kk: rnd.uniform(1, 5) for kk in avail if rnd.random() < 0.75}
+            hist.append(dict(upd_))
+            mt.update(dict(upd_))
+            for kk in upd_:
+                per.setdefault(kk, [])
+            for kk in per:
+                per[kk].append(upd_.get(kk, 0.0))
+            got = mt.get()
+            run.ok(kind="multi-value-base")
+            bad = set(got) != set(per)
+            for kk, vs in per.items():
+                w = vs[-k:]
+                if not bad and not (abs(float(got[kk]) - math.fsum(w) / len(w)) <= 1e-12 * 5):
+                    bad = True
+            if bad:
+                run.violation("window-mean", f"MultiValueTracker(SlidingWindowTracker({k})) after {t + 1} updates reports {got!r}; per-key windows since "
+                              f"first appearance (0 for omitted) give { {kk: math.fsum(vs[-k:]) / len(vs[-k:]) for kk, vs in per.items()} !r}",
+                              {"k": k, "history": hist, "multi_value_base": True})
+                break
+        run.nontriv(("c11-multi", rep, run.shard[0]))
